@@ -70,7 +70,7 @@ Definition hist_graph0 (c : histcase) : res graph := do ns <- hist_blocks c; imp
 Definition step_model (g : res graph) (s : step) : res graph :=
   do g <- g;
   do bs <- ni_blocks (st_in s);
-  update_key g (key_from_file_name (ni_name (st_in s))) (ni_meta (st_in s)) bs.
+  update_key g (key_name (ni_name (st_in s))) (ni_meta (st_in s)) bs.
 
 (* model states after the import and after every step *)
 Fixpoint model_states (g : res graph) (steps : list step) : list (res graph) :=
@@ -131,7 +131,7 @@ Definition hist_state0 (c : histcase) : res gstate := do ns <- hist_blocks c; im
 Definition step_state (g : res gstate) (s : step) : res gstate :=
   do g <- g;
   do bs <- ni_blocks (st_in s);
-  update_state_v true g (key_from_file_name (ni_name (st_in s))) (ni_meta (st_in s)) bs.
+  update_state_v true g (key_name (ni_name (st_in s))) (ni_meta (st_in s)) bs.
 
 Fixpoint model_gstates (g : res gstate) (steps : list step) : list (res gstate) :=
   match steps with
@@ -217,14 +217,14 @@ Definition hist_wf (c : histcase) : list N :=
    key equals the tree a fresh model build of its blocks collects (ids aside) *)
 Definition fresh_tree (c : histcase) (s : step) : res tree :=
   do bs <- ni_blocks (st_in s);
-  let key := key_from_file_name (ni_name (st_in s)) in
+  let key := key_name (ni_name (st_in s)) in
   do g <- from_blocks empty_graph key (ni_meta (st_in s)) bs;
   collect (fun _ => None) (gr_arena g) 0.
 
 Definition strip_titles_tree (t : tree) : tree := t.
 
 Definition hist_nontrivial (c : histcase) : bool :=
-  existsb (fun s => existsb (fun n => String.eqb (key_from_file_name (ni_name n)) (key_from_file_name (ni_name (st_in s)))) (hc_notes c))
+  existsb (fun s => existsb (fun n => String.eqb (key_name (ni_name n)) (key_name (ni_name (st_in s)))) (hc_notes c))
           (hc_steps c).
 
 (* (formerly known-finding class 2, F-ITEMLEAD, repaired: a list item that starts with a list and
